@@ -9,5 +9,5 @@ CONSTANTS
   Ends <- EndsHalf
   NCk = 8
   Fault = "seq"
-INVARIANTS TypeOK OneMessage ErrorIffBad NoEarlyAnswer ResponseShape CookiesSealSession CookiesDistinct KeyCurrent StillServingSafe
+INVARIANTS TypeOK StillServingSafe
 
